@@ -237,6 +237,8 @@ type DriveCfg struct {
 	BadStr   int // of those writes: chance of a string full of markup metacharacters (fault)
 	Vars     [3][]string
 	AfterEnd int // extra polls after the end
+	// ContinueAfterFault: go on after a statement that failed with a definite error (the model skips it)
+	ContinueAfterFault bool
 }
 
 func epsFor(secs float64) int64 {
@@ -323,6 +325,11 @@ func driveTape(tp *Tape, m *Model, cfg *DriveCfg, st *Stats) (ops []Op, choices 
 		ops = append(ops, Op{K: "advance", Ns: ns})
 	}
 	for len(ops) < cfg.MaxOps {
+		if m.faulted && cfg.ContinueAfterFault && m.ContinueAfterFault() {
+			if st != nil {
+				st.probe("continued_after_failing_statement")
+			}
+		}
 		if m.faulted || m.discard != "" {
 			break
 		}
